@@ -108,6 +108,25 @@ fn hex_family(valid: &str, max_len: usize, mut f: impl FnMut(&str)) {
     }
 }
 
+/// Strings whose only non-ASCII character (2, 3 and 4 bytes wide) sits at every byte offset 0..=max_offset, preceded by a
+/// filler and followed by 0, 1 or 40 more fillers: code that cuts text by *byte* position — to shorten it for an error
+/// message, to split off a prefix — meets the inside of a character for one of them, wherever its cut-off is below `max_offset`.
+fn multibyte_everywhere(fillers: &[char], max_offset: usize, mut f: impl FnMut(&str)) {
+    for ch in ["\u{e9}", "\u{20ac}", "\u{1f600}"] {
+        for &fill in fillers {
+            for at in 0..=max_offset {
+                for tail in [0usize, 1, 40] {
+                    let mut s = String::with_capacity(at + 4 + tail);
+                    s.extend(std::iter::repeat(fill).take(at));
+                    s.push_str(ch);
+                    s.extend(std::iter::repeat(fill).take(tail));
+                    f(&s);
+                }
+            }
+        }
+    }
+}
+
 fn hex_parsers(cx: &Ctx) {
     let sk = rigs::fixtures::bls_sk(1);
     let pk = sk.public_key();
@@ -177,6 +196,12 @@ fn hex_parsers(cx: &Ctx) {
     hex_family(&valid, 70, |s| {
         cx.call("str_to_addr", json!(s), s.as_bytes(), s.len() % 2 == 0, || str_to_addr(s).map(|_| ()));
     });
+    multibyte_everywhere(&['0', 'g'], 200, |s| {
+        cx.call("RegisterAddress::from_hex", json!(s), s.as_bytes(), true, || RegisterAddress::from_hex(s).map(|_| ()));
+        cx.call("ScratchpadAddress::from_hex", json!(s), s.as_bytes(), true, || ScratchpadAddress::from_hex(s).map(|_| ()));
+        cx.call("DataMapChunk::from_hex", json!(s), s.as_bytes(), true, || DataMapChunk::from_hex(s).map(|_| ()));
+        cx.call("str_to_addr", json!(s), s.as_bytes(), true, || str_to_addr(s).map(|_| ()));
+    });
 }
 
 fn wallet_keys(cx: &Ctx) {
@@ -190,6 +215,9 @@ fn wallet_keys(cx: &Ctx) {
     for s in ["zz", "0g", "é", " "] {
         cx.call("decrypt_private_key", json!(s), s.as_bytes(), false, || decrypt_private_key(s, "pw").map(|_| ()));
     }
+    multibyte_everywhere(&['0', 'a'], 120, |s| {
+        cx.call("decrypt_private_key", json!(s), s.as_bytes(), true, || decrypt_private_key(s, "pw").map(|_| ()));
+    });
     // round trip and every truncation class of a real ciphertext (lengths around the salt/nonce/tag edges)
     let key = "0x4c0883a69102937d6231471b5dbb6204fe5129617082792ae468d01a3f362318";
     let enc = cx.call("encrypt_private_key", json!(key), key.as_bytes(), true, || encrypt_private_key(key, "password123"));
@@ -234,6 +262,18 @@ fn ports(cx: &Ctx, thorough: bool) {
                 }
             }
         }
+    }
+    // long and non-ASCII text (the parser is clap's value parser for three options: it sees whatever the user typed)
+    for l in [31usize, 32, 33, 63, 64, 65, 255, 256, 257, 1000] {
+        for c in ['1', '-', 'a', ' '] {
+            inputs.push(std::iter::repeat(c).take(l).collect());
+        }
+    }
+    multibyte_everywhere(&['1', '-', 'a'], if thorough { 600 } else { 200 }, |s| inputs.push(s.to_string()));
+    for at in 0..=80usize {
+        // exactly one '-' as well: the range branch
+        inputs.push(format!("{}-{}\u{e9}", "1".repeat(at), "1".repeat(at)));
+        inputs.push(format!("{}\u{e9}-1", "1".repeat(at)));
     }
     let counts: Vec<u16> = vec![0, 1, 2, 3, 65534, 65535];
     for s in &inputs {
@@ -303,6 +343,11 @@ fn amounts(cx: &Ctx) {
             amount_prints_what_was_parsed(cx, &format!("{units}.{}", "9".repeat(fl)));
         }
     }
+    multibyte_everywhere(&['1', '.', 'a'], 200, |s| {
+        cx.call("AttoTokens::from_str", json!(s), s.as_bytes(), true, || ant_evm::AttoTokens::from_str(s).map(|_| ()));
+        let t = format!("1.{s}");
+        cx.call("AttoTokens::from_str", json!(t), t.as_bytes(), true, || ant_evm::AttoTokens::from_str(&t).map(|_| ()));
+    });
     for l in [77usize, 78, 79, 100, 1000] {
         let s: String = std::iter::repeat('9').take(l).collect();
         cx.call("AttoTokens::from_str", json!({"nines": l}), s.as_bytes(), true, || ant_evm::AttoTokens::from_str(&s).map(|_| ()));
@@ -389,6 +434,11 @@ fn multiaddrs(cx: &Ctx, thorough: bool) {
                 }
             }
         }
+    });
+    multibyte_everywhere(&['/', 'a', '1'], 200, |s| {
+        cx.call("craft_valid_multiaddr_from_str", json!(s), s.as_bytes(), true, || ant_bootstrap::craft_valid_multiaddr_from_str(s, false));
+        let t = format!("/ip4/1.2.3.4/udp/1200/quic-v1/p2p/{s}");
+        cx.call("craft_valid_multiaddr_from_str", json!(t), t.as_bytes(), true, || ant_bootstrap::craft_valid_multiaddr_from_str(&t, false));
     });
     for s in ["", "/", "//", "ip4/1.2.3.4", "/ip4", "/ip4/", "\u{0}", "/ip4/1.2.3.4/udp/", "/dns/example.com/udp/1/quic-v1"] {
         cx.call("craft_valid_multiaddr_from_str", json!(s), s.as_bytes(), true, || ant_bootstrap::craft_valid_multiaddr_from_str(s, false));
@@ -748,7 +798,8 @@ pub fn main(tier: Option<&str>) {
          every truncation and single-character substitution of a valid string, non-ASCII), every port token pair, all 65536 ports, \
          all strings <=4 over a 9-character alphabet for amounts, every sequence of <=4(5) multiaddr protocol tokens, every \
          truncation and structural single-token mutation of a valid cache file / registry file, every byte string <=1(2) plus all \
-         sequences <=3(4) over 24 msgpack marker bytes and every truncation / substitution of real record encodings. \
+         sequences <=3(4) over 24 msgpack marker bytes and every truncation / substitution of real record encodings; for every text \
+         parser additionally strings with one 2-, 3- or 4-byte character at every byte offset 0..=120/200(600), followed by 0, 1 or 40 fillers. \
          A case is non-trivial when it reaches past the first syntactic check (even-length hex, decimal-shaped, well-formed tokens).",
     );
     run.assume("the harness is built with overflow-checks=on: an arithmetic overflow in a parser surfaces as a panic");
